@@ -120,7 +120,9 @@ def _wire(scheme, proxy, sch, host_i, port_k, userinfo, path_i, query_i, frag):
     T.install(script, "ssl", True)
     try:
         if proxy:
-            pm = ProxyManager("http://proxy.example:3128", headers={"X-Default": "d"})
+            # use_forwarding_for_https only concerns https proxies: through a plain-http proxy an https URL is still tunnelled
+            pm = ProxyManager("http://proxy.example:3128", headers={"X-Default": "d"},
+                              **({"use_forwarding_for_https": True} if P.get("fwd_flag") else {}))
         else:
             pm = PoolManager(headers={"X-Default": "d"})
         try:
@@ -281,6 +283,9 @@ def JOBS(tier):
                 part = {"scheme": scheme, "proxy": proxy, "hosts": hosts, "paths": [0, 1, 3, 4, 5, 7] if quick else list(range(len(PATHS)))}
                 part["n"] = space_size(dims_of(part))
                 jobs.append({"func": "c15_wire", "timeout": t, "path_timeout": 60, "samples": 1, "part": part})
+    part = {"scheme": "https", "proxy": True, "hosts": [0, 4, 6], "paths": [1, 3], "fwd_flag": True}
+    part["n"] = space_size(dims_of(part))
+    jobs.append({"func": "c15_wire", "timeout": t, "path_timeout": 60, "samples": 1, "part": part})
     for w, x in ((0, 6), (1, 6), (0, 7)):
         part = {"num_pools": 2, "w": w, "x": x, "wmax": 10, "xmax": 10, "pre": [0, 2]}
         part["n"] = space_size(race_dims(part))
